@@ -403,4 +403,321 @@ def accessorsAgree (gen : List (String × MemRel × String)) (ref : List (String
 theorem accessor_table :
     accessorsAgree Generated.c16Accessors Ref.c16Accessors = true := by decide +kernel
 
+/-! ## 4. `__getitem__` and iteration -/
+
+section getitem
+variable {U : Type}
+
+/-- anatomy of a successful `x[ixs]`: NumPy's shape, the parent's units and name, and the class:
+    `unyt_quantity` for shape `()`, the parent's class otherwise -/
+theorem getitem_ok (nu : U) (p : Obj U) (ixs : List Ix) (r : Obj U) (h : getitem nu p ixs = .ok r) :
+    index p.shape ixs = .ok r.shape ∧ r.md = p.md ∧
+    ((r.cls = .uquantity ∧ r.shape = []) ∨ (r.cls = p.cls ∧ r.shape ≠ [])) := by
+  unfold getitem at h
+  cases hi : index p.shape ixs with
+  | error e => simp [hi] at h
+  | ok s' =>
+    simp only [hi, npGetitem] at h
+    by_cases hc : s' = [] ∧ (!(ixs.any Ix.isEllipsis)) = true
+    · simp only [hc, and_self, if_true] at h
+      cases h
+      exact ⟨by rw [hc.1], rfl, Or.inl ⟨rfl, rfl⟩⟩
+    · simp only [hc, if_false, arrayFinalize] at h
+      by_cases hs : s' = []
+      · simp only [hs, if_true] at h
+        cases h
+        exact ⟨by rw [hs], rfl, Or.inl ⟨rfl, rfl⟩⟩
+      · simp only [hs, if_false] at h
+        cases h
+        exact ⟨rfl, rfl, Or.inr ⟨rfl, hs⟩⟩
+
+/-- **getitem_keeps_units_name** — for every parent (class, shape, metadata) and every index,
+    the item carries the parent's units and name -/
+theorem getitem_keeps_units_name (nu : U) (p : Obj U) (ixs : List Ix) (r : Obj U)
+    (h : getitem nu p ixs = .ok r) : r.md.units = p.md.units ∧ r.md.name = p.md.name := by
+  have := (getitem_ok nu p ixs r h).2.1
+  rw [this]; exact ⟨rfl, rfl⟩
+
+/-- **wrap_class_iff_shape (`__getitem__`)** — indexing a parent whose class is not a quantity
+    class (unyt_array, user subclasses; any shape, 0-d included) with any index form yields a
+    `unyt_quantity` iff the result has shape `()` -/
+theorem getitem_array_parent_strict (nu : U) (p : Obj U) (ixs : List Ix) (r : Obj U)
+    (hp : p.cls.isQuantity = false) (h : getitem nu p ixs = .ok r) : r.res.Strict := by
+  rcases (getitem_ok nu p ixs r h).2.2 with ⟨hc, hs⟩ | ⟨hc, hs⟩
+  · refine ⟨fun _ => hs, fun _ => ?_⟩
+    show r.cls.isQuantity = true
+    rw [hc]; exact uquantity_is_quantity
+  · refine ⟨fun h' => ?_, fun h' => absurd h' hs⟩
+    simp only [Obj.res, hc, hp] at h'; cases h'
+
+/-- the full statement for indexing: from a parent that meets the property, every item meets it -/
+def C16_getitem_full : Prop :=
+  ∀ (p : Obj Nat) (ixs : List Ix) (r : Obj Nat),
+    p.cls.isUnyt = true → p.res.Good → getitem 0 p ixs = .ok r → r.res.Good
+
+/-- **C16 for indexing, partial** — guard: the parent is not a non-scalar quantity.  Array-class
+    parents of every shape and every index form give items that meet the property -/
+theorem C16_getitem_partial (nu : U) (p : Obj U) (ixs : List Ix) (r : Obj U)
+    (hguard : p.cls.isQuantity = false) (h : getitem nu p ixs = .ok r) : r.res.Good :=
+  strict_good _ (getitem_array_parent_strict nu p ixs r hguard h)
+
+/-- the excluded region is real: the size-1 quantity `q[None]` (shape `(1,)`, which meets the
+    property) indexed with the integer array `[0, 0]` is a 2-element `unyt_quantity` -/
+theorem C16_getitem_counterexample : ¬ C16_getitem_full := by
+  intro h
+  have := h ⟨.uquantity, [1], ⟨1, some "p"⟩⟩ [.fancy [2] 0 0] ⟨.uquantity, [2], ⟨1, some "p"⟩⟩
+    (by decide) (by decide) rfl
+  revert this; decide
+
+/-- the first step of that counterexample: `q[None]` is a `unyt_quantity` of shape `(1,)` -/
+example : getitem 0 (⟨.uquantity, [], ⟨1, some "p"⟩⟩ : Obj Nat) [.newaxis] = .ok ⟨.uquantity, [1], ⟨1, some "p"⟩⟩ := rfl
+/-- non-vacuity of the partial theorem: `x[0, :, [0, 1]]` on a (2,3,4) array has shape (2,3) -/
+example : getitem 0 (⟨.uarray, [2, 3, 4], ⟨1, none⟩⟩ : Obj Nat) [.int 0, .slice none none 1, .fancy [2] 0 1]
+    = .ok ⟨.uarray, [2, 3], ⟨1, none⟩⟩ := rfl
+example : getitem 0 (⟨.uarray, [2, 3], ⟨1, none⟩⟩ : Obj Nat) [.int 1, .int (-1)] = .ok ⟨.uquantity, [], ⟨1, none⟩⟩ := rfl
+
+/-- **iteration** — iterating a parent of shape `d :: s` yields exactly `d` items, each the
+    sub-array of shape `s` with the parent's units and name; for array-class parents each item
+    is a `unyt_quantity` iff `s = []` -/
+theorem iterate_items (nu : U) (p : Obj U) (d : Nat) (s : Shape) (hp : p.shape = d :: s)
+    (items : List (Except SErr (Obj U))) (h : iterate nu p = .ok items) :
+    items.length = d ∧
+    ∀ it ∈ items, ∃ o, it = .ok o ∧ o.shape = s ∧ o.md = p.md ∧
+      (p.cls.isQuantity = false → o.res.Strict) := by
+  unfold iterate at h
+  rw [hp] at h
+  simp only [Except.ok.injEq] at h
+  subst h
+  refine ⟨by simp, ?_⟩
+  intro it hit
+  simp only [List.mem_map, List.mem_range] at hit
+  obtain ⟨i, hi, rfl⟩ := hit
+  have hidx : index p.shape [.int (Int.ofNat i)] = .ok s := by
+    rw [hp]; exact index_single_int d s _ (intInRange_ofNat d i hi)
+  cases hg : getitem nu p [.int (Int.ofNat i)] with
+  | error e =>
+    unfold getitem at hg
+    simp only [hidx, npGetitem] at hg
+    split at hg
+    · cases hg
+    · split at hg <;> cases hg
+  | ok o =>
+    have ho := getitem_ok nu p _ o hg
+    refine ⟨o, rfl, ?_, ho.2.1, fun hq => getitem_array_parent_strict nu p _ o hq hg⟩
+    have := ho.1; rw [hidx] at this; cases this; rfl
+
+/-- a 0-d object is not iterable -/
+theorem iterate_scalar (nu : U) (p : Obj U) (hp : p.shape = []) : iterate nu p = .error .TypeError := by
+  unfold iterate; rw [hp]
+
+end getitem
+
+/-! ## 5. constructors -/
+
+/-- **unyt_quantity.__new__ size check** — whatever is passed in (scalars, arrays of any shape,
+    existing unyt objects, with or without `bypass_validation`), a successfully constructed
+    quantity has at most one element -/
+theorem quantityNew_size_le_one (cls : PyCls) (inp : NewInput) (bp : Bool) (r : NewRes)
+    (h : quantityNew cls inp bp = .ok r) : size r.res.shape ≤ 1 ∧ r.res.cls = cls := by
+  unfold quantityNew at h
+  split at h
+  · cases h
+  · split at h
+    · cases h
+    · rename_i hsz; cases h; exact ⟨by show size inp.asarray.1 ≤ 1; omega, rfl⟩
+
+/-- a Python or NumPy scalar becomes a 0-d quantity; an ndarray with more than one element is
+    refused -/
+theorem quantityNew_scalar (cls : PyCls) (bp : Bool) :
+    quantityNew cls .pyscalar bp = .ok ⟨⟨cls, []⟩, false⟩ ∧
+    quantityNew cls .npnumber bp = .ok ⟨⟨cls, []⟩, false⟩ := by
+  cases bp <;> exact ⟨rfl, rfl⟩
+
+theorem quantityNew_refuses_arrays (cls : PyCls) (s : Shape) (bp : Bool) (h : size s > 1) :
+    quantityNew cls (.ndarray s) bp = .error .RuntimeError := by
+  cases bp <;> simp [quantityNew, NewInput.isNumeric, NewInput.asarray, h]
+
+/-- **constructor from an ndarray is a view** of that array, with the requested class and the
+    array's shape, with or without `bypass_validation`; so is the constructor from a unyt object -/
+theorem arrayNew_of_array_is_view (cls : PyCls) (s : Shape) (bp : Bool) (c0 : PyCls) :
+    arrayNew cls (.ndarray s) bp = .ok ⟨⟨cls, s⟩, true⟩ ∧
+    arrayNew cls (.unyt c0 s) bp = .ok ⟨⟨cls, s⟩, true⟩ := by
+  cases bp <;> exact ⟨rfl, rfl⟩
+
+/-- the constructor returns the class it was called on, except for a list of unyt objects, which
+    `_coerce_iterable_units` always turns into a plain `unyt_array` with fresh data -/
+theorem arrayNew_class (cls : PyCls) (inp : NewInput) (r : NewRes) (h : arrayNew cls inp false = .ok r) :
+    r.res.cls = cls ∨ (∃ n e, inp = .listOfUnyt n e ∧ r = ⟨⟨.uarray, n :: e⟩, false⟩) := by
+  cases inp <;> simp [arrayNew] at h <;> first | (subst h; exact Or.inl rfl) | (subst h; exact Or.inr ⟨_, _, rfl, rfl⟩)
+
+/-! ## 6. reshape, squeeze, transpose and the other class-preserving methods -/
+
+theorem viewOp_nonreshape (cls : PyCls) (s : Shape) (op : ViewOp) (hnr : ∀ t, op ≠ .reshape t) :
+    viewOp cls s op = match viewShape s op with | .error e => .error e | .ok s' => .ok ⟨cls, s'⟩ := by
+  cases op <;> first | rfl | exact absurd rfl (hnr _)
+
+/-- every view-making method other than `repeat` keeps a 0-d object at one element -/
+theorem viewShape_scalar (op : ViewOp) (s' : Shape) (hnr : ∀ t, op ≠ .reshape t)
+    (hrep : ∀ n, op ≠ .repeat_ n) (h : viewShape [] op = .ok s') : size s' = 1 := by
+  cases op with
+  | squeeze => simp [viewShape, squeeze] at h; subst h; rfl
+  | squeezeAxis ax =>
+    simp only [viewShape, squeezeAxis] at h
+    split at h
+    · cases h; rfl
+    · simp [normAxis] at h
+      split at h <;> first | cases h | (split at h <;> cases h) | skip
+      all_goals omega
+  | transpose => simp [viewShape, transpose] at h; subst h; rfl
+  | transposeAxes p =>
+    simp only [viewShape, transposeAxes] at h
+    split at h
+    · rename_i hc
+      have : p = [] := List.length_eq_zero_iff.1 (by simpa using hc.1)
+      subst this; cases h; rfl
+    · cases h
+  | ravel => simp [viewShape, ravel, size] at h; subst h; rfl
+  | expandDims k =>
+    simp only [viewShape, expandDims] at h
+    split at h
+    · rename_i hk
+      have : k = 0 := by simpa using hk
+      subst this; cases h; rfl
+    · cases h
+  | reshape t => exact absurd rfl (hnr t)
+  | repeat_ n => exact absurd rfl (hrep n)
+
+/-- operations for which the class-preserving default path is harmless -/
+def viewGuard (cls : PyCls) (op : ViewOp) : Bool :=
+  if cls.isQuantity then
+    match op with
+    | .repeat_ _ => false
+    | _ => true
+  else
+    match op with
+    | .squeeze | .squeezeAxis _ => false
+    | .reshape t => t != []
+    | _ => true
+
+/-- the full statement: every view-making method of a well-formed object (quantity ⇔ 0-d)
+    returns an object that meets the property -/
+def C16_view_full : Prop :=
+  ∀ (cls : PyCls) (s : Shape) (op : ViewOp) (r : Res),
+    cls.isUnyt = true → Res.Strict ⟨cls, s⟩ → viewOp cls s op = .ok r → r.Good
+
+theorem viewShape_ne_nil (s : Shape) (op : ViewOp) (s' : Shape) (hs : s ≠ [])
+    (hop : match op with | .squeeze | .squeezeAxis _ => False | .reshape t => t ≠ [] | _ => True)
+    (h : viewShape s op = .ok s') : s' ≠ [] := by
+  cases op with
+  | squeeze => exact absurd hop id
+  | squeezeAxis ax => exact absurd hop id
+  | transpose => simp [viewShape, transpose] at h; subst h; simpa using hs
+  | transposeAxes p =>
+    simp only [viewShape, transposeAxes] at h
+    split at h
+    · rename_i hc; cases h
+      intro hnil
+      have : p = [] := by simpa using hnil
+      rw [this] at hc; simp at hc; exact hs (List.length_eq_zero_iff.1 hc.1.symm)
+    · cases h
+  | ravel => simp [viewShape, ravel] at h; subst h; simp
+  | expandDims k =>
+    simp only [viewShape, expandDims] at h
+    split at h
+    · cases h; simp
+    · cases h
+  | reshape t =>
+    simp only [viewShape] at h
+    have := length_reshape s t s' h
+    intro hnil; rw [hnil] at this; simp at this
+    exact hop (List.length_eq_zero_iff.1 this.symm)
+  | repeat_ n => simp [viewShape] at h; subst h; simp
+
+/-- **C16 for the view-making methods, partial** — for every unyt class, every shape and every
+    method outside the guard's excluded region (`squeeze` and `reshape(())` of arrays, `repeat` of
+    quantities), the result meets the property -/
+theorem C16_view_partial (cls : PyCls) (s : Shape) (op : ViewOp) (r : Res)
+    (hu : cls.isUnyt = true) (hwf : Res.Strict ⟨cls, s⟩) (hg : viewGuard cls op = true)
+    (h : viewOp cls s op = .ok r) : r.Good := by
+  cases hq : cls.isQuantity with
+  | true =>
+    have hs : s = [] := hwf.1 hq
+    subst hs
+    simp only [viewGuard, hq, if_true] at hg
+    by_cases hre : ∃ t, op = .reshape t
+    · obtain ⟨t, rfl⟩ := hre
+      simp only [viewOp, hq, if_true] at h
+      by_cases ht : t = []
+      · simp [ht, quantityReshape, size] at h; subst h
+        exact ⟨fun _ => hq, fun hsz => by simp [size] at hsz⟩
+      · simp only [ht, if_false, quantityReshape] at h
+        cases hr : reshape [] t with
+        | error e => simp [hr] at h
+        | ok s' =>
+          simp [hr] at h; subst h
+          have hl := length_reshape [] t s' hr
+          refine ⟨fun hnil => ?_, fun _ => uarray_not_quantity⟩
+          simp only at hnil; rw [hnil] at hl; simp at hl
+          exact absurd (List.length_eq_zero_iff.1 hl.symm) ht
+    · have hnr : ∀ t, op ≠ .reshape t := fun t e => hre ⟨t, e⟩
+      rw [viewOp_nonreshape cls [] op hnr] at h
+      cases hv : viewShape [] op with
+      | error e => simp [hv] at h
+      | ok s' =>
+        simp [hv] at h; subst h
+        have hrep : ∀ n, op ≠ .repeat_ n := fun n e => by subst e; simp at hg
+        have := viewShape_scalar op s' hnr hrep hv
+        exact ⟨fun _ => hq, fun hsz => by simp only at hsz; omega⟩
+  | false =>
+    have hs : s ≠ [] := fun hnil => by
+      have := hwf.2 hnil; simp only at this; rw [hq] at this; cases this
+    simp only [viewGuard, hq, Bool.false_eq_true, if_false] at hg
+    -- the class is preserved and is not a quantity class; only the shape matters
+    have key : r.cls = cls ∧ ∃ s', viewShape s op = .ok s' ∧ r.shape = s' := by
+      by_cases hre : ∃ t, op = .reshape t
+      · obtain ⟨t, rfl⟩ := hre
+        simp only [viewOp, hq, Bool.false_eq_true, if_false] at h
+        cases hr : reshape s t with
+        | error e => simp [hr] at h
+        | ok s' => simp [hr] at h; subst h; exact ⟨rfl, s', by simp [viewShape, hr], rfl⟩
+      · have hnr : ∀ t, op ≠ .reshape t := fun t e => hre ⟨t, e⟩
+        rw [viewOp_nonreshape cls s op hnr] at h
+        cases hv : viewShape s op with
+        | error e => simp [hv] at h
+        | ok s' => simp [hv] at h; subst h; exact ⟨rfl, s', rfl, rfl⟩
+    obtain ⟨hc, s', hv, hrs⟩ := key
+    have hne : s' ≠ [] := by
+      apply viewShape_ne_nil s op s' hs _ hv
+      cases op <;> simp_all
+    refine ⟨fun hnil => absurd (hrs ▸ hnil) hne, fun _ => by rw [hc]; exact hq⟩
+
+/-- the excluded region is real: `x[:1].squeeze()` and `x[:1].reshape(())` are 0-d
+    `unyt_array`s, `q.repeat(2)` is a 2-element `unyt_quantity` -/
+theorem C16_view_counterexample :
+    ¬ C16_view_full ∧
+    viewOp .uarray [1] .squeeze = .ok ⟨.uarray, []⟩ ∧
+    viewOp .uarray [1] (.reshape []) = .ok ⟨.uarray, []⟩ ∧
+    viewOp .uquantity [] (.repeat_ 2) = .ok ⟨.uquantity, [2]⟩ := by
+  refine ⟨fun h => ?_, rfl, rfl, rfl⟩
+  have := h .uarray [1] .squeeze ⟨.uarray, []⟩ (by decide) (by decide) rfl
+  revert this; decide
+
+/-- `unyt_quantity.reshape` to any non-empty target shape is a `unyt_array` (the override of
+    array.py:2296), to `()` it stays a quantity -/
+theorem quantityReshape_class (cls : PyCls) (s : Shape) (t : List Int) (r : Res) (ht : t ≠ [])
+    (h : quantityReshape cls s (.dims t) = .ok r) : r.cls = .uarray ∧ r.shape ≠ [] ∧ size r.shape = size s := by
+  simp only [quantityReshape] at h
+  cases hr : reshape s t with
+  | error e => simp [hr] at h
+  | ok s' =>
+    simp [hr] at h; subst h
+    refine ⟨rfl, ?_, size_reshape s t s' hr⟩
+    intro hnil
+    have := length_reshape s t s' hr
+    simp only at hnil; rw [hnil] at this; simp at this
+    exact ht (List.length_eq_zero_iff.1 this.symm)
+
+example : viewOp .uquantity [] (.reshape [1, 1]) = .ok ⟨.uarray, [1, 1]⟩ := rfl
+example : viewOp .uarray [2, 3] .transpose = .ok ⟨.uarray, [3, 2]⟩ := rfl
+
 end Unyt.C16
